@@ -1282,6 +1282,7 @@ def payload(check, prog):
                       crossed, sorted(restored - unpacked)))
     # the arrays strategies put into results
     need = {}
+    foreign, flatdata = [], []
     results = set(prog.subclasses(R))
     nsites = 0
     for mname, m in sorted(prog.modules.items()):
@@ -1312,7 +1313,65 @@ def payload(check, prog):
                             if k[0] == 'const' and t[0] == 'call' and \
                                     t[1] == 'xarray.DataArray':
                                 need.setdefault(k[1], cq + '.' + meth)
+                            # everything else goes through yaml.dump and comes back
+                            # through yaml.safe_load: plain data and the package's own
+                            # serialisable objects survive that, an object returned
+                            # by another library does not
+                            leaves = [t]
+                            while any(x[0] == 'ite' for x in leaves):
+                                leaves = [y for x in leaves for y in (
+                                    (x[2], x[3]) if x[0] == 'ite' else (x,))]
+                            for lf in leaves:
+                                while lf[0] == 'upd':
+                                    lf = lf[1]
+                                if lf[0] == 'call' and isinstance(lf[1], str) and \
+                                        not lf[1].startswith(('holopy.', 'xarray.', 'numpy.'))\
+                                        and lf[1] not in ('list', 'dict', 'tuple', 'float',
+                                                          'int', 'str', 'bool', 'len',
+                                                          'sorted', 'max', 'min', 'sum',
+                                                          'abs', 'round') \
+                                        and '.' in lf[1]:
+                                    foreign.append((cq.rpartition('.')[2] + '.' + meth,
+                                                    k[1] if k[0] == 'const' else show(k),
+                                                    lf[1]))
+                        # the fitted data: what the writer/reader pair can carry is the
+                        # caller's image or a subset made by make_subset_data (which
+                        # records the original axes the reader rebuilds `flat` from)
+                        dt = None
+                        it4 = Interp(prog, max_depth=2, inline_new=False,
+                                     opaque=[MD + 'make_subset_data', MD + 'flat'])
+                        try:
+                            r4_ = it4.analyze(cq + '.' + meth)
+                            for x4 in subterms(r4_.ret):
+                                if x4[0] == 'new' and x4[1] == x[1]:
+                                    dt = x4[2][0] if x4[2] else dict(x4[3]).get('data')
+                        except AnalysisError:
+                            pass
+                        if dt is not None:
+                            dl = [dt]
+                            while any(y[0] == 'ite' for y in dl):
+                                dl = [z for y in dl for z in (
+                                    (y[2], y[3]) if y[0] == 'ite' else (y,))]
+                            for lf in dl:
+                                while lf[0] == 'upd':
+                                    lf = lf[1]
+                                okd = lf[0] == 'sym' or (
+                                    lf[0] == 'call' and isinstance(lf[1], str) and
+                                    lf[1].endswith('make_subset_data'))
+                                if not okd:
+                                    flatdata.append((cq.rpartition('.')[2] + '.' + meth,
+                                                     show(lf)[:60]))
     check.floor('result construction sites with literal extras', nsites, 4)
+    for where, key_, lib in sorted(set(foreign)):
+        check.bad('L9-result-payload', '%s extra %r' % (where, key_),
+                  'the result carries the raw object returned by %s: it is written with a '
+                  'python-object tag that the reader (yaml.safe_load) refuses, so the '
+                  'saved result cannot be loaded' % lib, loc2)
+    for where, what in sorted(set(flatdata)):
+        check.bad('L9-result-payload', '%s data' % where,
+                  'the result is given %s as its data: flattened but without the record '
+                  'of the original axes, which the reader needs as soon as the data have '
+                  'a `flat` dimension (AttributeError: original_dims on load)' % what, loc2)
     missing = sorted(set(need) - restored)
     check.require(not missing, 'L9-result-payload', 'FitResult._unserialize names',
                   'every labelled array a strategy stores in a result (%s) is restored'
